@@ -140,7 +140,11 @@ type KnownFinding struct {
 
 type KnownFile struct {
 	Findings []KnownFinding `json:"known_findings"`
-	Fixed    []string       `json:"fixed"`
+	// Outside: genuine defects of a property that lie in the part the static check does NOT decide (found by a
+	// dynamic reproduction); they are printed on every run of that property so that the record is visible, and they
+	// suppress nothing.
+	Outside []KnownFinding `json:"known_findings_outside_decided_part"`
+	Fixed   []string       `json:"fixed"`
 }
 
 func loadKnown(path string) KnownFile {
@@ -204,6 +208,11 @@ func (c *Ctx) finish(verifDir string, seed int, start time.Time) int {
 				viols = append(viols, *o)
 				fmt.Printf("%s: [%s %s] %s — %s\n", o.Pos, o.ID, o.Rule, o.Construct, o.Detail)
 			}
+		}
+	}
+	for _, k := range known.Outside {
+		if k.Property == c.Prop {
+			fmt.Printf("KNOWN-FINDING: property=%s (outside the statically decided part) %s — input: %s\n", c.Prop, k.What, k.Input)
 		}
 	}
 	total := len(c.Obs)
